@@ -86,8 +86,8 @@ HitClass(ch, id) ==
       hp == {k \in 1..Len(ch) : st[ch[k]] # "committed" /\ id \in Range(ntx[ch[k]])}
       upto == IF hp = {} THEN Len(ch) ELSE CHOOSE k \in hp : \A k2 \in hp : k <= k2
       path == {ch[k] : k \in 1..upto}
-  IN IF \E j \in path : ts > nts[j] + nth[j] THEN "ancestor-skipped"
-     ELSE IF \E j \in path : ts = nts[j] + nth[j] THEN "ts-eq-upper-bound"
+  IN IF \E j \in path : ts = nts[j] + nth[j] THEN "ts-eq-upper-bound"      \* (the boundary class takes precedence: a
+     ELSE IF \E j \in path : ts > nts[j] + nth[j] THEN "ancestor-skipped"   \*  look-up may both skip trackers and hit a boundary)
      ELSE IF hp = {} /\ id \notin locs /\ maxTs # 0 /\ maxTs = ts THEN "ts-eq-upper-bound"
      ELSE IF hp = {} THEN "finalized" ELSE "unfinalized-ancestor"
 DupClass(pp, l, i) ==
